@@ -80,7 +80,20 @@ func verifInput() (in string, chunks []string) {
 		size := verifNondetString("head.size")
 		verifAssumeAlphabet(size, "09")
 		verifAssume(len(size) >= 1 && len(size) <= 15)
-		trail := []string{"", "\n", "\r\n", "\n\n"}[verifChoose("head.trail", 4)]
+		// any amount of trailing white space (a pointer padded beyond the
+		// 1024-byte cut-off is content, not a pointer)
+		trail := verifNondetString("head.trail")
+		if hasT1 {
+			verifAssumeAlphabet(trail, "  \t\t") // blanks only when more content follows on the line
+		} else {
+			verifAssumeClass(trail, "asciiws")
+		}
+		if verifChoose("head.padding", 2) == 0 {
+			verifAssume(len(trail) <= 3)
+		} else {
+			// padded beyond the sniff window: the 1024-byte cut falls inside the padding
+			verifAssume(len(trail) <= 1100 && 54+len(oid)+6+len(size)+len(trail) >= 1024)
+		}
 		head = "version https://git-lfs.github.com/spec/v1\noid sha256:" + oid + "\nsize " + size + trail
 	case 1:
 		// nothing, or white space only
